@@ -340,7 +340,7 @@ fn validate_args(args: &[Expr]) -> Result<()> {
         };
 
         match raw_arg {
-            RawExpr::Var{name} => {
+            RawExpr::Var{name, ..} => {
                 if name == "_" {
                     break;
                 }
@@ -509,13 +509,15 @@ fn eval_expr(
             }
         },
 
-        RawExpr::Var{name} => {
+        RawExpr::Var{name, loc: (line, col)} => {
             let v =
                 match scopes.get(name) {
                     Some(v) => v,
-                    None => return new_loc_err(
-                        Error::Undefined{name: name.clone()},
-                    ),
+                    None => return Err(Error::AtLoc{
+                        source: Box::new(Error::Undefined{name: name.clone()}),
+                        line: *line,
+                        col: *col,
+                    }),
                 };
 
             Ok(v)
@@ -744,7 +746,7 @@ fn eval_expr(
                         } else {
                             let (raw_expr, (line, col)) = expr;
 
-                            if let RawExpr::Var{name} = raw_expr {
+                            if let RawExpr::Var{name, loc} = raw_expr {
                                 let v =
                                     match scopes.get(name) {
                                         Some(v) => v.clone(),
@@ -752,8 +754,8 @@ fn eval_expr(
                                             source: Box::new(Error::Undefined{
                                                 name: name.clone()
                                             }),
-                                            line: *line,
-                                            col: *col,
+                                            line: loc.0,
+                                            col: loc.1,
                                         }),
                                     };
 
@@ -1448,7 +1450,7 @@ fn eval_call(
                         // new AST variable node here.
                         bindings.push((
                             (
-                                RawExpr::Var{name: "this".to_string()},
+                                RawExpr::Var{name: "this".to_string(), loc: (0, 0)},
                                 (0, 0),
                             ),
                             value::new_val_ref_with_no_source(this),
